@@ -200,10 +200,19 @@ def _exact_rule_integral(x, z, rule):
     return tot
 
 
-def kernel_check(x, y, target, alpha, rule):
+def kernel_check(x, y, target, alpha, rule, ctx=None):
     kern = _kernel()
-    z = kern(_frac_array(x), _frac_array(y), integral_value=Fraction(target), integral_method=rule, alpha=alpha)
-    z = [Fraction(v) for v in z]
+    exact = True
+    try:
+        raw = kern(_frac_array(x), _frac_array(y), integral_value=Fraction(target), integral_method=rule, alpha=alpha)
+        exact = all(isinstance(v, (Fraction, int)) and not isinstance(v, bool) for v in raw)
+    except Exception:  # noqa: BLE001 - a kernel that does not compute on rationals is judged on floats below
+        exact = False
+        raw = None
+    if not exact:
+        # the kernel coerces to floating point (or refuses object arrays): the same clauses, to rounding
+        return kernel_check_float(x, y, target, alpha, rule, ctx)
+    z = [Fraction(v) for v in raw]
     n = len(x)
     if len(z) != n:
         raise Violation(f"kernel returned {len(z)} values for {n} samples")
@@ -232,6 +241,36 @@ def kernel_check(x, y, target, alpha, rule):
     return z
 
 
+def kernel_check_float(x, y, target, alpha, rule, ctx=None):
+    """the kernel clauses in floating point (tolerance 1e-9 of the magnitudes involved); exact rational expectations"""
+    if ctx is not None:
+        ctx.count("kernel-judged-in-floats")
+    kern = _kernel()
+    xf = np.array([float(v) for v in x])
+    yf = np.array([float(v) for v in y])
+    z = np.asarray(kern(xf, yf.copy(), integral_value=float(target), integral_method=rule, alpha=alpha), dtype=float)
+    n = len(x)
+    if z.shape != (n,):
+        raise Violation(f"kernel returned shape {z.shape} for {n} samples")
+    pre = _exact_rule_integral(x, y, rule)
+    width = x[-1] - x[0]
+    c = (x[0] + x[-1]) / 2
+    w = [1 - (2 * abs(v - c) / width) ** alpha for v in x]
+    # expected result in exact arithmetic: y + y_hat * w with the rule integral of w as normaliser
+    wint = _exact_rule_integral(x, w, rule)
+    if wint == 0:
+        return z
+    yhat = (Fraction(target) - pre) / wint
+    want = [float(a + yhat * b) for a, b in zip(y, w)]
+    scale = max(max(abs(v) for v in want), max(abs(float(v)) for v in y), abs(float(yhat)), 1e-300)
+    for i in range(n):
+        if abs(z[i] - want[i]) > 1e-9 * scale:
+            what = "moved an end point" if i in (0, n - 1) else f"displacement of sample {i} off the documented profile"
+            raise Violation(f"kernel (floats): {what}: got {z[i]!r}, exact rational expectation {want[i]!r}",
+                            detail=dict(x=[str(v) for v in x], y=[str(v) for v in y], target=str(target)))
+    return z
+
+
 def kernel_body(ctx, case):
     if _kernel() is None:
         ctx.count("kernel-not-addressable")
@@ -241,17 +280,17 @@ def kernel_body(ctx, case):
     n = len(x)
     alpha, rule = case["alpha"], case["rule"]
     zero = [Fraction(0)] * n
-    z00 = kernel_check(x, zero, 0, alpha, rule)
+    z00 = kernel_check(x, zero, 0, alpha, rule, ctx)
     if any(v != 0 for v in z00):
         raise Violation("kernel: zero function with zero target is not returned unchanged")
-    kernel_check(x, zero, 1, alpha, rule)
+    kernel_check(x, zero, 1, alpha, rule, ctx)
     for i in range(n):
         e = list(zero)
         e[i] = Fraction(1)
-        kernel_check(x, e, 0, alpha, rule)
+        kernel_check(x, e, 0, alpha, rule, ctx)
     # one deterministic generic rational vector: confirms affinity beyond the basis
     y = [Fraction(((i * 7 + 3 * alpha + n) % 11) - 5, 3) for i in range(n)]
-    kernel_check(x, y, Fraction(n - 4, 7), alpha, rule)
+    kernel_check(x, y, Fraction(n - 4, 7), alpha, rule, ctx)
     ctx.record(case, [f"n={n}", f"alpha={alpha}", rule], True)
 
 
@@ -278,7 +317,7 @@ def kernel_random_body(ctx, case):
     x = [Fraction(g, case["den"]) for g in case["grid"]]
     y = [Fraction(a, b) for a, b in case["y"]]
     target = Fraction(*case["target"])
-    kernel_check(x, y, target, case["alpha"], case["rule"])
+    kernel_check(x, y, target, case["alpha"], case["rule"], ctx)
     uniform = len({b - a for a, b in zip(case["grid"][:-1], case["grid"][1:])}) == 1
     ctx.record(case, [f"alpha={case['alpha']}", case["rule"], "uniform" if uniform else "non-uniform"],
                target != _exact_rule_integral(x, y, case["rule"]))
